@@ -102,6 +102,12 @@ func execLine(line string) (out string) {
 		return opUse(f[1:])
 	case "hacc":
 		return opHAcc(f[1:])
+	case "edit":
+		return opEdit(f[1:])
+	case "resign":
+		return opResign(f[1:])
+	case "vtwice":
+		return opVTwice(f[1:])
 	}
 	return "harness-error unknown op " + f[0]
 }
@@ -756,4 +762,136 @@ func opHAcc(a []string) string {
 	}
 	sb.WriteString(" after=" + dumpMap(h))
 	return sb.String()
+}
+
+// edit KIND HEX BUCKET MAP : decode, set the entries of MAP in one bucket's parsed map, drop that
+// bucket's retained raw bytes (as the field documentation prescribes for edits), encode again
+func opEdit(a []string) string {
+	kind, data, bucket := a[0], unhex(a[1]), a[2]
+	p := &parser{s: a[3]}
+	entries := p.mapv()
+	p.done()
+	apply := func(h *cose.Headers) {
+		if bucket == "p" {
+			if h.Protected == nil {
+				h.Protected = cose.ProtectedHeader{}
+			}
+			for k, v := range entries {
+				h.Protected[k] = v
+			}
+			h.RawProtected = nil
+		} else {
+			if h.Unprotected == nil {
+				h.Unprotected = cose.UnprotectedHeader{}
+			}
+			for k, v := range entries {
+				h.Unprotected[k] = v
+			}
+			h.RawUnprotected = nil
+		}
+	}
+	var enc []byte
+	var err error
+	switch kind {
+	case "s1":
+		var m cose.Sign1Message
+		if m.UnmarshalCBOR(data) != nil {
+			return "dec=err"
+		}
+		apply(&m.Headers)
+		enc, err = m.MarshalCBOR()
+	case "sig":
+		var sg cose.Signature
+		if sg.UnmarshalCBOR(data) != nil {
+			return "dec=err"
+		}
+		apply(&sg.Headers)
+		enc, err = sg.MarshalCBOR()
+	case "sm":
+		var m cose.SignMessage
+		if m.UnmarshalCBOR(data) != nil {
+			return "dec=err"
+		}
+		apply(&m.Headers)
+		enc, err = m.MarshalCBOR()
+	default:
+		return "harness-error edit kind"
+	}
+	if err != nil {
+		return "dec=ok enc=err"
+	}
+	return "dec=ok enc=" + hx(enc) + " redec=" + firstWord(opDec(kind, enc))
+}
+
+// resign TAG HEX EXT SIGNER : decode, drop the signature and the retained protected bytes, sign again
+func opResign(a []string) string {
+	tagged := a[0] == "t"
+	data := unhex(a[1])
+	ext := unhex(a[2])
+	log := &callLog{}
+	signer := mkSigner(a[3], log)
+	var m cose.Sign1Message
+	var err error
+	if tagged {
+		err = m.UnmarshalCBOR(data)
+	} else {
+		err = (*cose.UntaggedSign1Message)(&m).UnmarshalCBOR(data)
+	}
+	if err != nil {
+		return "dec=err"
+	}
+	m.Signature = nil
+	m.Headers.RawProtected = nil
+	err = m.Sign(rand.Reader, ext, signer)
+	s := "dec=ok sign=" + errClass(err) + " st=" + dumpSign1(&m) + " tbs=" + hexList(log.tbs)
+	enc, err := m.MarshalCBOR()
+	if err != nil {
+		return s + " enc=" + errClass(err)
+	}
+	return s + " enc=" + hx(enc)
+}
+
+// vtwice KIND HEX EXT [VERIFIERS] IDX XOR : decode, verify, change one byte of the retained
+// protected bytes IN PLACE, verify again
+func opVTwice(a []string) string {
+	kind, data, ext := a[0], unhex(a[1]), unhex(a[2])
+	vlog := &callLog{}
+	var verifiers []cose.Verifier
+	for _, s := range splitList(a[3]) {
+		verifiers = append(verifiers, mkVerifier(s, vlog))
+	}
+	var idx, xor int
+	fmt.Sscanf(a[4], "%d", &idx)
+	fmt.Sscanf(a[5], "%d", &xor)
+	var raw *[]byte
+	var verify func() error
+	switch kind {
+	case "s1":
+		m := &cose.Sign1Message{}
+		if m.UnmarshalCBOR(data) != nil {
+			return "dec=err"
+		}
+		raw = (*[]byte)(&m.Headers.RawProtected)
+		verify = func() error { return m.Verify(ext, verifiers[0]) }
+	case "sm":
+		m := &cose.SignMessage{}
+		if m.UnmarshalCBOR(data) != nil {
+			return "dec=err"
+		}
+		raw = (*[]byte)(&m.Headers.RawProtected)
+		verify = func() error { return m.Verify(ext, verifiers...) }
+	default:
+		return "harness-error vtwice kind"
+	}
+	if kind == "s1" && len(verifiers) == 0 {
+		return "harness-error vtwice verifier"
+	}
+	r1 := verify()
+	t1 := hexList(vlog.tbs)
+	vlog.tbs = nil
+	if idx < len(*raw) {
+		(*raw)[idx] ^= byte(xor)
+	}
+	r2 := verify()
+	return "dec=ok ver=" + errClass(r1) + " vtbs=" + t1 + " ver2=" + errClass(r2) + " vtbs2=" + hexList(vlog.tbs)
 }
